@@ -261,7 +261,9 @@ def _gen_query(rng, cfg, idxs, nreaders, fields, with_rf):
         # a column that (some) samples do not have: whether that raises or returns a partial answer is not judged,
         # but it is a read - the tree must be left alone
         k = rng.choice(idxs)
-        return {"op": "mread_badcol", "r": rd, "a": max(0, k - rng.choice([0, 3, 1000])), "b": k + rng.choice([0, 5, 100000]),
+        spf_ = max(1, (cfg.file_s * cfg.n) // cfg.d)   # (keep the range to a few hundred candidate files)
+        return {"op": "mread_badcol", "r": rd, "a": max(0, k - rng.choice([0, 3, min(1000, 50 * spf_)])),
+                "b": k + rng.choice([0, 5, min(100000, 200 * spf_)]),
                 "cols": rng.choice(["nosuch_field", fields[0] + "/nosuch", ["nosuch_field"]])}
     if r < 0.65:
         return {"op": "mbounds", "r": rd}
